@@ -463,6 +463,8 @@ func fileClass(name string) string {
 		return "schema"
 	case name == "Chart.lock":
 		return "Chart.lock"
+	case name == "requirements.yaml" || name == "requirements.lock":
+		return name
 	case name == ".helmignore":
 		return "helmignore"
 	case strings.HasPrefix(name, "templates/"):
@@ -583,6 +585,21 @@ func genC20d(g *Gen, seed, index uint64) *Plan {
 	f["Chart.yaml"] = g.c20dChartYAML(false)
 	ds.Alt["Chart.yaml"] = g.c20dChartYAML(true)
 	hasOther := strings.Contains(f["Chart.yaml"], "- name: other")
+	if g.Chance(0.25) {
+		// the legacy layout: apiVersion v1, dependencies in requirements.yaml, lock in requirements.lock
+		cy := f["Chart.yaml"]
+		if i := strings.Index(cy, "dependencies:\n"); i >= 0 {
+			f["requirements.yaml"] = cy[i:]
+			cy = cy[:i]
+			cy = strings.Replace(cy, "apiVersion: v2", "apiVersion: v1", 1)
+			cy = strings.Replace(cy, "type: application\n", "", 1)
+			f["Chart.yaml"] = cy
+			ds.Alt["requirements.yaml"] = "# an older requirements file\ndependencies:\n- name: sub\n  version: 0.0.9\n  repository: https://example.com/a/long/repository/url/that/pads/this/older/version/of/the/file\n- name: gone\n  version: 1.0.0\n  repository: https://example.com/gone\n  enabled: false\n"
+			if g.Chance(0.6) {
+				f["requirements.lock"] = "dependencies:\n- name: sub\n  repository: file://../sub\n  version: 0.1.0\ndigest: sha256:0123456789abcdef0123456789abcdef0123456789abcdef0123456789abcdef\ngenerated: \"2020-01-02T03:04:05.678901234+01:00\"\n"
+			}
+		}
+	}
 	f["values.yaml"] = fmt.Sprintf("a: %s\nlist:\n- one\n- two\nnested:\n  deep:\n    k: %d\nsub:\n  enabled: true\n  s: over\ntags:\n  backend: true\nglobal:\n  g: %s\nsnippet: \"{{ .Release.Name }}-x\"\n", g.c20dWord(), g.N(100), g.c20dWord())
 	ds.Alt["values.yaml"] = fmt.Sprintf("a: %s\nlist: [a, b]\nnested: {deep: {k: 1}}\nsub: {enabled: false}\n# a comment line that makes this version longer than the other one, so the torn tail is non-empty\nglobal: {g: x}\nsnippet: plain\n", g.c20dWord())
 	if g.Chance(0.6) {
@@ -666,6 +683,9 @@ func genC20d(g *Gen, seed, index uint64) *Plan {
 	}
 	sort.Strings(names)
 	pickFile := func() string {
+		if _, ok := f["requirements.yaml"]; ok && g.Chance(0.3) {
+			return g.Pick("requirements.yaml", "requirements.yaml", "requirements.lock")
+		}
 		if len(ds.Home) > 0 && g.Chance(0.35) {
 			return g.Pick("home:repositories.yaml", "home:index.yaml", "home:index.yaml")
 		}
